@@ -27,6 +27,7 @@ import (
 	"encoding/json"
 	"encoding/pem"
 	"fmt"
+	"math/big"
 	"net/http"
 	"os"
 	"runtime"
@@ -279,6 +280,15 @@ func (w *world) entry(class, kt string) []byte {
 		return chain(a, leaf("other.verif.test", a.Public()))
 	case "keymismatch":
 		return chain(a, leaf(w.norm, b.Public()))
+	case "keynegated":
+		// the stored private key is n-d for the leaf key d: public point (X, p-Y) -- same X, other Y
+		if kt == "R" {
+			return chain(a, leaf(w.norm, b.Public())) // no such key for RSA: unrelated key
+		}
+		c := ecA.Curve.Params()
+		neg := &ecdsa.PrivateKey{PublicKey: ecdsa.PublicKey{Curve: ecA.Curve, X: new(big.Int).Set(ecA.X), Y: new(big.Int).Sub(c.P, ecA.Y)},
+			D: new(big.Int).Sub(c.N, ecA.D)}
+		return chain(neg, leaf(w.norm, ecA.Public()))
 	case "wrongtype":
 		return chain(other, leaf(w.norm, other.Public()))
 	case "nopem":
@@ -424,6 +434,7 @@ func TestDecision(t *testing.T) {
 	}
 	rng := vutil.Rand(51)
 	skippedRSA, info := 0, map[string]int{}
+	negatedRuns := 0 // cases whose ECDSA cache entry holds the negated scalar of the leaf key and reach the cache
 	err := vutil.ReadNDJSON(vutil.Env("VERIF_CASES", ""), func(line []byte) error {
 		var c dcase
 		if err := json.Unmarshal(line, &c); err != nil {
@@ -459,6 +470,9 @@ func TestDecision(t *testing.T) {
 			info["renewal-issuance-in-background"]++
 		}
 		w.mu.Unlock()
+		if kt == "E" && c.Cache["E"] == "keynegated" && !tok && c.Policy && norm != "" {
+			negatedRuns++
+		}
 		key := fmt.Sprintf("%s|pol=%v|clock=%s|cache=%s|kt=%s|tok=%v|tc=%s|out=%s", nc, c.Policy, c.Clock, c.Cache[kt], kt, tok, c.TokenCache, outcome)
 		out.Case(key)
 		detail := map[string]any{"case": json.RawMessage(append([]byte(nil), line...)), "input": input, "got": r, "touches": w.touches, "finalize_requests": fin}
@@ -528,6 +542,7 @@ func TestDecision(t *testing.T) {
 		return nil
 	})
 	out.Extra["c51_rsa_issuance_cases_skipped"] = skippedRSA
+	out.Extra["c51_negated_scalar_cache_cases"] = negatedRuns
 	for k, v := range info {
 		out.Extra["info_"+k] = v
 	}
@@ -575,7 +590,7 @@ func TestConcurrent(t *testing.T) {
 		case 1:
 			cacheE, clock = "good", "post"
 		case 2:
-			cacheE = []string{"othername", "keymismatch", "wrongtype", "garbage"}[rng.Intn(4)]
+			cacheE = []string{"othername", "keymismatch", "keynegated", "wrongtype", "garbage"}[rng.Intn(5)]
 		}
 		outcome := []string{"ok", "ok", "ok", "cafail", "badcert"}[rng.Intn(5)]
 		_, norm := spelling("plain")
